@@ -22,7 +22,7 @@ META = {
     "stubs": ["np.exp / np.log / ** with non-integer exponent -> Ackermannised functions with congruence, strict monotonicity, inverse-pair and reciprocal axiom instances; applications at rational points are enclosed by mpmath intervals"],
     "assumptions": ["REAL mode: literals read as exact rationals", "bit-for-bit agreement of the two copies is established as identity of the EUF shadow terms: same uninterpreted operations on the same operands in the same order (no constant folding), on every path"],
 }
-LEDGER = {"quick": 3190, "thorough": 3190}
+LEDGER = {"quick": 3430, "thorough": 3430}
 
 
 def _fns(which):
@@ -89,11 +89,9 @@ def forward_run(which):
         g = SV.of(ns["gmr"])
         z = z3.Real("z")
         C.assume(z >= 0, z <= 120)
-        with load.Tracer(watch=["us_std_atm_pressure_from_altitude"]) as tr:
-            P = p_of_z(SV(t=z))
-        loc = tr.locals["us_std_atm_pressure_from_altitude"]
-        i = int(SymArray(loc["i"]).a.reshape(-1)[0])
+        P = p_of_z(SV(t=z))
         h = (SV(t=z) * R / (SV(t=z) + R)).term()
+        i = _layer(C, h, H, "H")
         Pt = _elems(P)[0].term()
         Hn = H.a[i + 1]
         claims = {
@@ -118,14 +116,43 @@ def forward_run(which):
     return run
 
 
+def _layer(C, x, table, kind):
+    """The layer the current path is in, WITHOUT looking at the implementation's local variables: the unique k
+    whose defining condition (kind 'H': H_b[k] <= x < H_b[k+1]; kind 'P': P_b[k] >= x > P_b[k+1]) is
+    consistent with the path condition.  (That the path condition IMPLIES it is a claim of its own.)"""
+    from symnp import solve
+
+    cands = []
+    for k in range(8):
+        a, b = table.a[k], table.a[k + 1]
+        if kind == "H":
+            cond = z3.And(a.term() <= x, z3.BoolVal(True) if b.is_inf() else x < b.term())
+        else:
+            cond = z3.And(a.term() >= x, x > b.term())
+        r = solve.quick_feasible(C, cond, 4000)
+        if r == "sat":
+            return k
+        if r != "unsat":
+            cands.append(k)
+    if len(cands) == 1:
+        return cands[0]
+    if not cands:
+        raise core.PathAbort()  # every layer refuted: the path condition itself is unsatisfiable
+    raise core.HarnessError(f"layer of the path not determined (candidates {cands})")
+
+
+def _h_of(z, R):
+    return (SV(t=z) * R / (SV(t=z) + R)).term() if not isinstance(z, SV) else (z * R / (z + R)).term()
+
+
 def mono_run(which):
     def run(C):
         p_of_z, _z, ns = _fns(which)
         z0, z1 = z3.Real("z0"), z3.Real("z1")
         C.assume(z0 >= 0, z0 < z1, z1 <= 120)
-        with load.Tracer(watch=["us_std_atm_pressure_from_altitude"]) as tr:
-            P = p_of_z(SymArray([SV(t=z0), SV(t=z1)], "float"))
-        i = [int(v) for v in SymArray(tr.locals["us_std_atm_pressure_from_altitude"]["i"]).a.reshape(-1)]
+        P = p_of_z(SymArray([SV(t=z0), SV(t=z1)], "float"))
+        R = SV.of(ns["const"].earth_radius)
+        i = [_layer(C, _h_of(zz_, R), ns["H_b"], "H") for zz_ in (z0, z1)]
         claims = {}
         if i[0] == i[1]:
             claims[f"layer {i[0]}: pressure strictly decreasing with altitude inside a layer (array input)"] = P[0].term() > P[1].term()
@@ -141,11 +168,11 @@ def roundtrip_z_run(which):
         p_of_z, z_of_p, ns = _fns(which)
         z = z3.Real("z")
         C.assume(z >= 0, z <= 120)
-        with load.Tracer(watch=["us_std_atm_pressure_from_altitude", "us_std_atm_altitude_from_pressure"]) as tr:
-            P = p_of_z(SV(t=z))
-            zz = z_of_p(P)
-        i = int(SymArray(tr.locals["us_std_atm_pressure_from_altitude"]["i"]).a.reshape(-1)[0])
-        j = int(SymArray(tr.locals["us_std_atm_altitude_from_pressure"]["i"]).a.reshape(-1)[0])
+        P = p_of_z(SV(t=z))
+        zz = z_of_p(P)
+        R = SV.of(ns["const"].earth_radius)
+        i = _layer(C, _h_of(z, R), ns["H_b"], "H")
+        j = _layer(C, _elems(P)[0].term(), ns["P_b"], "P")
         back = _elems(zz)[0]
         claims = {}
         if i == j:
@@ -178,12 +205,12 @@ def roundtrip_p_run(which):
         floor = Fr(1, 1000)  # below the pressure at the model top (120 km: ~2.5e-3 Pa)
         C.assume(Pv >= core.rv(floor), Pv <= 101325)
         _register_inverse_boundaries(ns, floor)
-        with load.Tracer(watch=["us_std_atm_pressure_from_altitude", "us_std_atm_altitude_from_pressure"]) as tr:
-            zz = z_of_p(SV(t=Pv))
-            PP = p_of_z(zz)
-        j = int(SymArray(tr.locals["us_std_atm_altitude_from_pressure"]["i"]).a.reshape(-1)[0])
-        i = int(SymArray(tr.locals["us_std_atm_pressure_from_altitude"]["i"]).a.reshape(-1)[0])
+        zz = z_of_p(SV(t=Pv))
+        PP = p_of_z(zz)
+        R = SV.of(ns["const"].earth_radius)
         Pb = ns["P_b"]
+        j = _layer(C, Pv, Pb, "P")
+        i = _layer(C, _h_of(_elems(zz)[0], R), ns["H_b"], "H")
         claims = {f"layer {j}: selected layer is the last j with P_b[j] >= P": z3.And(Pb.a[j].term() >= Pv, Pv > Pb.a[j + 1].term())}
         zt = _elems(zz)[0].term()
         claims[f"layer {j}: altitude >= 0 and finite for positive pressure"] = zt >= 0
